@@ -149,6 +149,7 @@ static char h_scndir[PATH_MAX];		/* absolute scenario directory, replaces @R */
 static int h_saved_errno;
 static h_buf h_diags, h_cbs;		/* pending diagnostics / callback log */
 static long h_failat;			/* countdown of logged invocations, 0 = disarmed */
+static int h_skip;			/* needplain seen in an instrumented build */
 static int h_in_parse;			/* a parse command is running: callbacks get the owning context */
 static int h_cberror;			/* refusing callbacks call cfg_error(cfg, ...) before they return */
 static unsigned h_next_ptr_id;
@@ -1830,7 +1831,22 @@ static void h_command(char *line)
 	char *p;
 
 	h_bad = 0;
-	if (!strncmp(line, "schema ", 7) || !strcmp(line, "schema")) {
+	if (h_skip) {		/* the rest of a scenario that is meant for an uninstrumented build only */
+		p = strchr(line, ' ');
+		if (p)
+			*p = 0;
+		h_line("%s rc=skipped", line);
+	} else if (!strcmp(line, "needplain")) {
+		/* under AddressSanitizer every realloc() copies: inputs of 10^5 tokens belong to the plain build */
+#if defined(__SANITIZE_ADDRESS__)
+		h_skip = 1;
+#elif defined(__has_feature)
+#if __has_feature(address_sanitizer)
+		h_skip = 1;
+#endif
+#endif
+		h_line("needplain%s", h_skip ? " rc=skip" : "");
+	} else if (!strncmp(line, "schema ", 7) || !strcmp(line, "schema")) {
 		h_c_schema(line);
 	} else {
 		for (h_na = 0, p = line; p && h_na < H_MAXTOK; h_na++) {
